@@ -1,4 +1,78 @@
 package sim
 
-// catalogFn resolves a catalogue (declared Go function) stub; see catalog_gen.go.
-var catalogFn = func(w *World, f *Func) interface{} { panic("catalogue not linked") }
+import (
+	"fmt"
+	"reflect"
+	"sync"
+)
+
+// Runtime side of the catalogue (see gencat.go / catalog_gen.go).
+
+var (
+	catWorld *World // the world the declared functions currently belong to
+	catSpecs []Func // specs the declared functions were generated from
+)
+
+var catFns []interface{}
+
+var catOnce sync.Once
+
+func catInit() { catOnce.Do(catSetup) }
+
+func catSetup() {
+	if len(catFns) == 0 {
+		return
+	}
+	catSpecs = CatalogSpecs(catSeed)
+	if len(catSpecs) != len(catFns) {
+		panic(fmt.Sprintf("catalogue out of date: %d specs, %d functions; run `digsim gencat`", len(catSpecs), len(catFns)))
+	}
+	for i := range catSpecs {
+		want := FuncType(&catSpecs[i])
+		got := reflect.TypeOf(catFns[i])
+		if !sameShape(want, got) {
+			panic(fmt.Sprintf("catalogue out of date: Cat%d has type %v, spec wants %v; run `digsim gencat`", i, got, want))
+		}
+	}
+	catalogFn = func(w *World, f *Func) interface{} {
+		if w.catBind == nil {
+			w.catBind = map[int]*Func{}
+		}
+		if !sameLeaves(f.LeafParams(), catSpecs[f.Cat].LeafParams()) || len(f.Results) != len(catSpecs[f.Cat].Results) || f.HasErr != catSpecs[f.Cat].HasErr {
+			panic(fmt.Sprintf("harness: spec f%d does not match catalogue function %d", f.ID, f.Cat))
+		}
+		w.catBind[f.Cat] = f
+		return catFns[f.Cat]
+	}
+	catalogName = func(f *Func) string {
+		if f.Cat < 0 {
+			return ""
+		}
+		return fmt.Sprintf("digsim.Cat%d", f.Cat)
+	}
+}
+
+// sameShape: same number of ins/outs and variadic-ness (struct types are
+// declared vs. reflect-made, so they are not identical).
+func sameShape(a, b reflect.Type) bool {
+	return a.NumIn() == b.NumIn() && a.NumOut() == b.NumOut() && a.IsVariadic() == b.IsVariadic()
+}
+
+func catCall(idx int, args []reflect.Value) []reflect.Value {
+	w := catWorld
+	if w == nil {
+		panic("catalogue function called outside a run")
+	}
+	f := w.catBind[idx]
+	if f == nil {
+		panic(fmt.Sprintf("catalogue function %d is not bound in this run", idx))
+	}
+	return w.call(f, reflect.TypeOf(catFns[idx]), args)
+}
+
+func catErr(v reflect.Value) error {
+	if v.IsNil() {
+		return nil
+	}
+	return v.Interface().(error)
+}
